@@ -573,11 +573,20 @@ def run_sequence(spec, after_step=None) -> Trace:
         pop = EVQEPopulation(individuals=inds, species_representatives=reps, species_members=None, species_membership=None)
         tr.init, tr.init_snap = pop, snapshot_population(pop, tr.table)
         _number_list(tr, pop)
+        instances = {}  # "inst" key of a step -> the operator OBJECT shared by all steps with that key
         for st in spec["steps"]:
             step = Step(st)
             cur["step"] = step
-            op = build_operator(st, optimizer)
+            if st.get("inst") is not None:
+                # persistent operator instance (as the solver keeps its operators across generations): built once,
+                # its generator continues across applications
+                if st["inst"] not in instances:
+                    instances[st["inst"]] = build_operator(st, optimizer)
+                op = instances[st["inst"]]
+            else:
+                op = build_operator(st, optimizer)
             rng = operator_rng(op)
+            log_start = len(rng.log) if isinstance(rng, OpsRandom) else 0
             step.arg, step.arg_snap = pop, snapshot_population(pop, tr.table)
             tr.observations.append(Observation("argument", len(tr.steps), pop, step.arg_snap, identity_of(pop)))
             n_calls = len(ev.calls)
@@ -588,7 +597,7 @@ def run_sequence(spec, after_step=None) -> Trace:
                 step.exc = e
             ex.finish()
             batches = ex.take_batches()
-            step.stream = list(rng.log) if isinstance(rng, OpsRandom) else None
+            step.stream = list(rng.log[log_start:]) if isinstance(rng, OpsRandom) else None
             step.tasks = [t for b in batches for t in b["tasks"]]
             step.pi = [p for b in batches for p in b["pi"]] if len(batches) <= 1 else None
             step.eval_calls = ev.calls[n_calls:]
@@ -1053,6 +1062,10 @@ def random_spec(rng, max_len=12):
         pool = [json.loads(json.dumps(i)) for i in inds] + [evqe.random_valid_individual(rng, n=n) for _ in range(2)]
         reps = [json.loads(json.dumps(rng.choice(pool))) for _ in range(rng.randint(0, 5))]
     workers = rng.randint(1, 4)
+    if rng.random() < 0.3:
+        return make_persistent({"n": n, "inds": inds, "reps": reps, "steps": random_steps(rng, rng.randint(2, max_len)), "workers": workers,
+                                "order": [rng.randint(0, 7) for _ in range(24)], "positive": rng.random() < 0.5,
+                                "evalmode": rng.choice(["hash", "hash", "hash", "coarse", "coarse", "zero", "negzero", "neg", "equal"])})
     return {"n": n, "inds": inds, "reps": reps, "steps": random_steps(rng, rng.randint(1, max_len)), "workers": workers,
             "order": [rng.randint(0, 7) for _ in range(24)], "positive": rng.random() < 0.5,
             "evalmode": rng.choice(["hash", "hash", "hash", "coarse", "coarse", "zero", "negzero", "neg", "equal"])}
@@ -1153,6 +1166,39 @@ def twin_pipeline_specs(rng, count):
     return out
 
 
+def make_persistent(spec):
+    """One operator OBJECT per operator kind for the whole sequence: every step of a kind gets the configuration of the
+    first step of that kind and the same "inst" key."""
+    first = {}
+    steps = []
+    for st in spec["steps"]:
+        k = st["op"]
+        first.setdefault(k, st)
+        steps.append(dict(first[k], inst=k))
+    return dict(spec, steps=steps)
+
+
+def persistent_specs(rng, count):
+    """Solver-like sequences with persistent operator instances: a fixed list of operator objects applied generation
+    after generation (speciation, selection, then mutation operators with probabilities strictly between 0 and 1), so
+    that the same mutation operator object meets populations that changed in between."""
+    out = []
+    for _ in range(count):
+        n, inds = random_population(rng, size=rng.randint(3, 8))
+        p = lambda: rng.choice([0.25, 0.5, 0.5, 0.75, round(0.1 + 0.8 * rng.random(), 3)])  # noqa: E731
+        ops = [{"op": "speciation", "thr": rng.choice([1, 2, 3]), "seed": rng.randint(0, 10**6), "inst": "speciation"},
+               {"op": "selection", "alpha": rng.choice([0.0, 0.125]), "beta": rng.choice([0.0, 0.25]), "tournament": rng.choice([None, 2, 3]), "seed": rng.randint(0, 10**6), "inst": "selection"}]
+        muts = [{"op": k, "p": p(), "seed": rng.randint(0, 10**6), "inst": k} for k in rng.sample(["last", "param", "topo", "removal"], rng.randint(1, 4))]
+        if rng.random() < 0.5:
+            gen = ops + muts          # the EVQE order
+        else:
+            gen = muts[:1] + ops + muts[1:] + muts[:1]   # the same mutation object twice per generation
+        steps = (gen * rng.randint(2, 4))[:16]
+        out.append({"n": n, "inds": inds, "reps": None, "steps": steps, "workers": rng.randint(1, 4), "order": [rng.randint(0, 7) for _ in range(24)],
+                    "positive": rng.random() < 0.5, "evalmode": rng.choice(["hash", "hash", "coarse"])})
+    return out
+
+
 def precondition_specs(rng, count):
     """Selection NOT preceded by a speciation (documented precondition violated): EVQESelectionException after the
     evaluations and the count callback."""
@@ -1247,6 +1293,14 @@ def drive(ctx, pid, specs, step_oracle, end_oracle, checker, corr_key, nontrivia
         ctx.tally(f"length:{len(ops)}")
         ctx.tally(f"workers:{spec['workers']}")
         ctx.tally(f"evaluator:{spec.get('evalmode', 'hash')}")
+        seen_inst = {}
+        for st_ in spec["steps"][: len(tr.steps)]:
+            if st_.get("inst") is not None:
+                seen_inst[st_["inst"]] = seen_inst.get(st_["inst"], 0) + 1
+        if seen_inst:
+            ctx.tally("operators:persistent-instances")
+            if any(v >= 2 and k not in ("speciation", "selection") for k, v in seen_inst.items()):
+                ctx.tally("operators:same-mutation-object-applied-repeatedly")
         for s in tr.steps:
             k = s.spec["op"]
             ctx.tally(f"op:{k}")
